@@ -60,7 +60,7 @@ def run(repo, res, tier):
                 seen.add(fd.key())
                 res.add(Finding("excitation-mismatch", fd.module + ".py", fd.func, fd.node,
                                 f"combines terms of different degree in the excitation ({fd.msg}): the result is not linear", getattr(fd.node, "lineno", None)))
-    if errors and not res.findings:
+    if errors and not res.new_findings():
         raise AnalysisError("construct outside the modelled fragment: " + " | ".join(errors[:3]))
     res.notes += errors
     res.assumptions += ["zero tests on the excitation (`pol == 0` masks returning 0) are linearity preserving",
